@@ -115,6 +115,11 @@ pub fn state_key(sys: &System, parts: &KeyParts, monitor_hash: u64) -> u128 {
                         1u8.hash(h);
                         w.id.as_num().hash(h);
                         w.stopping.hash(h);
+                        if sys.worker_lifetimes {
+                            // absolute clock and age matter only where lifetimes run out
+                            w.joined_clock_ms.hash(h);
+                            sys.launcher.borrow().clock_ms.hash(h);
+                        }
                         w.to_worker.len().hash(h);
                         for f in &w.to_worker {
                             f.as_ref().hash(h);
